@@ -15,7 +15,8 @@ a_ == <<97>>  b_ == <<98>>  x_ == <<120>>  y_ == <<121>>  z_ == <<122>>  p_ == <
 S(t) == Str(t)
 DocSeq == <<
   Obj(<<a_, b_, n1_, p_, q_>>,
-      << Obj(<<x_, y_, z_, <<233>>>>, <<IntV(1), Arr(<<IntV(10), IntV(20), IntV(30)>>), Obj(<<p_, q_>>, <<IntV(0), Bool(FALSE)>>), IntV(9)>>),
+      << Obj(<<x_, y_, z_, <<233>>, q_>>, <<IntV(1), Arr(<<IntV(10), IntV(20), IntV(30)>>), Obj(<<p_, q_>>, <<IntV(0), Bool(FALSE)>>), IntV(9),
+                                          Obj(<<p_, q_>>, <<Obj(<<>>, <<>>), Arr(<<Obj(<<>>, <<>>)>>)>>)>>),       \* empty objects stay objects
          Arr(<<Obj(<<x_, y_>>, <<IntV(1), IntV(2)>>), Obj(<<x_, y_>>, <<S(<<>>), Null>>), Arr(<<IntV(5), IntV(6), IntV(7)>>)>>),
          Obj(<<n1_, x_>>, <<S(<<111, 110, 101>>), Arr(<<>>)>>),
          S(<<123, 34, 120, 34, 58, 32, 49, 125>>),         \* the string {"x": 1}: JSON text is still a primitive
@@ -33,6 +34,7 @@ RelQueries == { Q("$", <<Child(SName(x_))>>), Q("$", <<Child(SName(y_))>>), Q("$
                 Q("$", <<Child(SIndex(1)), Child(SName(x_))>>), Q("$", <<Child(SWild), Child(SName(x_))>>), Q("$", <<Seg(FALSE, <<SIndex(0), SIndex(2)>>)>>),
                 Q("$", <<Child(SIndex(2)), Child(SIndex(1))>>), Q("$", <<Child(SName(b_))>>), Q("$", <<Child(SName(n1_))>>), Q("$", <<Child(SWild), Child(SName(y_))>>),
                 Q("$", <<Child(SIndex(1)), Child(SName(x_)), Child(SWild), Child(SName(y_))>>), Q("$", <<Child(SName(x_)), Child(SIndex(1))>>),
+                Q("$", <<Child(SName(q_))>>), Q("$", <<Child(SName(q_)), Child(SName(p_))>>), Q("$", <<Child(SName(q_)), Child(SName(q_)), Child(SIndex(0))>>),
                 Q("$", <<Child(SName(y_)), Seg(FALSE, <<SIndex(2), SIndex(10)>>)>>), Q("$", <<Child(SName(y_)), Child(SSlice(<<8>>, <<12>>, <<>>))>>),
                 \* negative indices address the same elements as their normalized spelling
                 Q("$", <<Child(SName(<<233>>))>>), Q("$", <<Child(SName(y_)), Child(SIndex(-1))>>), Q("$", <<Child(SIndex(-1))>>), Q("$", <<Child(SIndex(-1)), Child(SName(x_))>>) }
